@@ -21,7 +21,7 @@ func VerifValueTag(v Value) string {
 	case unicodeString:
 		return "unicode"
 	case *importedString:
-		if x.scanned {
+		if x.isScanned() {
 			if x.u != nil {
 				return "imported-u"
 			}
